@@ -351,11 +351,11 @@ def r8(fx):
     yield from p06.r3(fx)
 
 
-@rule('C02', 'R9', 44, 'every data placeholder is overwritten: remainder bits per version = modules not covered by codewords (C03.R5)')
+@rule('C02', 'R9', 160, 'every data placeholder is overwritten: remainder bits per version = modules not covered by codewords (C03.R5)')
 def r9(fx):
     from . import p03
     for o in p03.r5(fx):
-        if o.key.startswith('remainder bits') or o.key.startswith('order of the parts'):
+        if o.key.startswith('final message v') and not o.key.startswith('final message v-') and not o.key.startswith('final message v0'):
             yield o
 
 
